@@ -112,6 +112,9 @@ def run(tier):
     # names that differ only in leading / trailing white space are different names
     for base in ("total", "n", "userName", "漢", ""):
         names += [base + " ", " " + base, " " + base + " ", base + "\t", "\n" + base, base + "\u00a0", base + "  "]
+    # canonically equivalent spellings are different names (different bytes in the log): precomposed / combining, OHM / OMEGA, ANGSTROM / A-ring, Hangul
+    names += ["caf\u00e9", "cafe\u0301", "\u2126", "\u03a9", "\u212b", "\u00c5", "A\u030a", "\uac00", "\u1100\u1161", "\ufb01", "fi", "\u1e9b\u0323", "\u1e9b", "\u017f",
+              "s", "\uff21", "A", "Stra\u00dfe", "Strasse", "STRASSE", "\u0130", "i\u0307", "I"]
     names = sorted(set(n for n in names if "." not in n and not n.startswith("$")))
     for repl in ("REDACTED",) if tier == "quick" else ("REDACTED", "X"):
         res = []
